@@ -33,13 +33,24 @@ impl<T: Elem> Case for MCase<T> {
         format!("<{} as Math<{}>>", self.provider, T::NAME)
     }
     fn inflight(&self, w: &mut dyn std::fmt::Write) {
-        let _ = write!(w, "<{} as Math<{}>> on {} operand pairs", self.provider, T::NAME, self.pairs.len());
+        let _ = write!(
+            w,
+            "<{} as Math<{}>> on {} operand pairs",
+            self.provider,
+            T::NAME,
+            self.pairs.len()
+        );
         if let Some((a, b)) = self.pairs.first() {
             let _ = write!(w, " starting at ({}, {})", hexs(*a), hexs(*b));
         }
     }
     fn call(&self) -> String {
-        let mut s = format!("every Math<{}> method of {} on {} operand pair(s)", T::NAME, self.provider, self.pairs.len());
+        let mut s = format!(
+            "every Math<{}> method of {} on {} operand pair(s)",
+            T::NAME,
+            self.provider,
+            self.pairs.len()
+        );
         if self.pairs.len() <= 4 {
             let _ = write!(s, ": {:?}", self.pairs);
         }
@@ -93,7 +104,10 @@ impl<T: Elem> Case for MCase<T> {
                     c.pairs[0] = (s, b);
                     out.push(c);
                 }
-                if b.to_bits() != s.to_bits() && b.to_bits() != T::zero().to_bits() && s.to_bits() != T::zero().to_bits() {
+                if b.to_bits() != s.to_bits()
+                    && b.to_bits() != T::zero().to_bits()
+                    && s.to_bits() != T::zero().to_bits()
+                {
                     let mut c = self.clone();
                     c.pairs[0] = (a, s);
                     out.push(c);
@@ -106,7 +120,14 @@ impl<T: Elem> Case for MCase<T> {
 
 fn bad<T: Elem>(method: &str, a: T, b: Option<T>, want: String, got: String, note: &str) -> Verdict {
     let args = match b {
-        Some(b) => format!("{}({} [{}], {} [{}])", method, a.show(), hexs(a), b.show(), hexs(b)),
+        Some(b) => format!(
+            "{}({} [{}], {} [{}])",
+            method,
+            a.show(),
+            hexs(a),
+            b.show(),
+            hexs(b)
+        ),
         None => format!("{}({} [{}])", method, a.show(), hexs(a)),
     };
     Some(Fail {
@@ -142,16 +163,37 @@ fn run<T: Elem, M: Math<T>>(c: &MCase<T>) -> Verdict {
         return bad("one", one, None, sh(T::one()), sh(one), "");
     }
     if lo.to_bits() != T::lowest().to_bits() {
-        return bad("min", lo, None, sh(T::lowest()), sh(lo), "min() must be the smallest value of the type");
+        return bad(
+            "min",
+            lo,
+            None,
+            sh(T::lowest()),
+            sh(lo),
+            "min() must be the smallest value of the type",
+        );
     }
     if hi.to_bits() != T::highest().to_bits() {
-        return bad("max", hi, None, sh(T::highest()), sh(hi), "max() must be the largest value of the type");
+        return bad(
+            "max",
+            hi,
+            None,
+            sh(T::highest()),
+            sh(hi),
+            "max() must be the largest value of the type",
+        );
     }
     for &(a, b) in &c.pairs {
         // bounds and identities
         if !a.is_nan() {
             if !(lo <= a && a <= hi) {
-                return bad("min/max", a, None, "min() <= a <= max()".into(), format!("min()={} max()={}", sh(lo), sh(hi)), "");
+                return bad(
+                    "min/max",
+                    a,
+                    None,
+                    "min() <= a <= max()".into(),
+                    format!("min()={} max()={}", sh(lo), sh(hi)),
+                    "",
+                );
             }
             let az = M::add(a, zero);
             if !(az == a) {
@@ -163,12 +205,30 @@ fn run<T: Elem, M: Math<T>>(c: &MCase<T>) -> Verdict {
             return bad("mul", a, Some(one), sh(a), sh(a1), "one identity");
         }
         // add / sub / mul
-        let checks: [(&str, T, T); 3] =
-            [("add", a.w_add(b), M::add(a, b)), ("sub", a.w_sub(b), M::sub(a, b)), ("mul", a.w_mul(b), M::mul(a, b))];
+        let checks: [(&str, T, T); 3] = [
+            ("add", a.w_add(b), M::add(a, b)),
+            ("sub", a.w_sub(b), M::sub(a, b)),
+            ("mul", a.w_mul(b), M::mul(a, b)),
+        ];
         for (name, want, got) in checks {
-            let ok = if T::FLOAT { float_ok(want, got, 0) } else { want == got };
+            let ok = if T::FLOAT {
+                float_ok(want, got, 0)
+            } else {
+                want == got
+            };
             if !ok {
-                return bad(name, a, Some(b), sh(want), sh(got), if T::FLOAT { "IEEE result bit for bit" } else { "wrapping primitive" });
+                return bad(
+                    name,
+                    a,
+                    Some(b),
+                    sh(want),
+                    sh(got),
+                    if T::FLOAT {
+                        "IEEE result bit for bit"
+                    } else {
+                        "wrapping primitive"
+                    },
+                );
             }
         }
         // div
@@ -183,7 +243,7 @@ fn run<T: Elem, M: Math<T>>(c: &MCase<T>) -> Verdict {
                         note: "integer division by zero must panic".into(),
                     });
                 }
-            },
+            }
             Some(want) => {
                 let got = match mem::catch(|| M::div(a, b)) {
                     Ok(v) => v,
@@ -195,28 +255,60 @@ fn run<T: Elem, M: Math<T>>(c: &MCase<T>) -> Verdict {
                             actual: format!("panic: {m}"),
                             note: String::new(),
                         })
-                    },
+                    }
                 };
-                let ok = if T::FLOAT { float_ok(want, got, if c.fast { 2 } else { 0 }) } else { want == got };
+                let ok = if T::FLOAT {
+                    float_ok(want, got, if c.fast { 2 } else { 0 })
+                } else {
+                    want == got
+                };
                 if !ok {
-                    return bad("div", a, Some(b), sh(want), sh(got), if c.fast { "within 2 ulp" } else { "exact" });
+                    return bad(
+                        "div",
+                        a,
+                        Some(b),
+                        sh(want),
+                        sh(got),
+                        if c.fast { "within 2 ulp" } else { "exact" },
+                    );
                 }
-            },
+            }
         }
         // comparisons
         let eq = M::cmp_eq(a, b);
         if eq != (a == b) {
-            return bad("cmp_eq", a, Some(b), format!("{}", a == b), format!("{eq}"), "primitive ==");
+            return bad(
+                "cmp_eq",
+                a,
+                Some(b),
+                format!("{}", a == b),
+                format!("{eq}"),
+                "primitive ==",
+            );
         }
         if !a.is_nan() && !b.is_nan() {
             let (mn, mx) = (M::cmp_min(a, b), M::cmp_max(a, b));
             let wmn = if b < a { b } else { a };
             let wmx = if b > a { b } else { a };
             if mn.is_nan() || !(mn == wmn) {
-                return bad("cmp_min", a, Some(b), sh(wmn), sh(mn), "smaller operand (either zero accepted)");
+                return bad(
+                    "cmp_min",
+                    a,
+                    Some(b),
+                    sh(wmn),
+                    sh(mn),
+                    "smaller operand (either zero accepted)",
+                );
             }
             if mx.is_nan() || !(mx == wmx) {
-                return bad("cmp_max", a, Some(b), sh(wmx), sh(mx), "larger operand (either zero accepted)");
+                return bad(
+                    "cmp_max",
+                    a,
+                    Some(b),
+                    sh(wmx),
+                    sh(mx),
+                    "larger operand (either zero accepted)",
+                );
             }
         }
         // sqrt (of both operands)
@@ -225,7 +317,14 @@ fn run<T: Elem, M: Math<T>>(c: &MCase<T>) -> Verdict {
                 let want = v.sqrt_via_f64();
                 let got = M::sqrt(v);
                 if !float_ok(want, got, 0) {
-                    return bad("sqrt", v, None, sh(want), sh(got), "correctly rounded square root");
+                    return bad(
+                        "sqrt",
+                        v,
+                        None,
+                        sh(want),
+                        sh(got),
+                        "correctly rounded square root",
+                    );
                 }
             } else {
                 let x = v.to_i128();
@@ -233,7 +332,14 @@ fn run<T: Elem, M: Math<T>>(c: &MCase<T>) -> Verdict {
                     let got = M::sqrt(v);
                     let r = got.to_i128();
                     if !(r >= 0 && r * r <= x && x < (r + 1) * (r + 1)) {
-                        return bad("sqrt", v, None, "r with r*r <= a < (r+1)^2".into(), sh(got), "floor of the square root");
+                        return bad(
+                            "sqrt",
+                            v,
+                            None,
+                            "r with r*r <= a < (r+1)^2".into(),
+                            sh(got),
+                            "floor of the square root",
+                        );
                     }
                 }
             }
@@ -242,14 +348,26 @@ fn run<T: Elem, M: Math<T>>(c: &MCase<T>) -> Verdict {
     None
 }
 
-fn job<T: Elem>(ctx: &mut Ctx, provider: &'static str, fast: bool, runf: fn(&MCase<T>) -> Verdict, part: u64, parts: u64) {
+fn job<T: Elem>(
+    ctx: &mut Ctx,
+    provider: &'static str,
+    fast: bool,
+    runf: fn(&MCase<T>) -> Verdict,
+    part: u64,
+    parts: u64,
+) {
     let tier = ctx.tier;
     let mut rng = ctx.rng.split();
     let bounds: Vec<T> = vals::boundaries::<T>(true);
     let batch = 2048usize;
     let mut n = 0u64;
     let mut go = |ctx: &mut Ctx, pairs: Vec<(T, T)>| {
-        let c = MCase { provider, fast, pairs, run: runf };
+        let c = MCase {
+            provider,
+            fast,
+            pairs,
+            run: runf,
+        };
         ctx.run_case(&c, true, &mut |c| (c.run)(c));
         n += 1;
         if ctx.p.samples.is_empty() {
@@ -265,14 +383,23 @@ fn job<T: Elem>(ctx: &mut Ctx, provider: &'static str, fast: bool, runf: fn(&MCa
     if exhaustive {
         let vb = T::BITS as u64;
         let total = 1u64 << (2 * vb);
-        let (from, to) = (total / parts * part, if part + 1 == parts { total } else { total / parts * (part + 1) });
+        let (from, to) = (
+            total / parts * part,
+            if part + 1 == parts {
+                total
+            } else {
+                total / parts * (part + 1)
+            },
+        );
         let mut p = from;
         while p < to {
             if ctx.out_of_time() {
                 break;
             }
             let end = (p + batch as u64).min(to);
-            let pairs: Vec<(T, T)> = (p..end).map(|i| (T::from_bits(i >> vb), T::from_bits(i & ((1 << vb) - 1)))).collect();
+            let pairs: Vec<(T, T)> = (p..end)
+                .map(|i| (T::from_bits(i >> vb), T::from_bits(i & ((1 << vb) - 1))))
+                .collect();
             go(ctx, pairs);
             p = end;
         }
@@ -304,9 +431,15 @@ fn job<T: Elem>(ctx: &mut Ctx, provider: &'static str, fast: bool, runf: fn(&MCa
                         let d = rng.range_i64(-1, 1) as i128;
                         let m = (1i128 << T::BITS.min(52)) - 1;
                         let cap = if T::SIGNED { m >> 1 } else { m };
-                        ((T::from_i128((r * r + d).clamp(0, cap))), vals::mixed(&mut rng, &bounds, true))
+                        (
+                            (T::from_i128((r * r + d).clamp(0, cap))),
+                            vals::mixed(&mut rng, &bounds, true),
+                        )
                     } else {
-                        (vals::mixed(&mut rng, &bounds, true), vals::mixed(&mut rng, &bounds, true))
+                        (
+                            vals::mixed(&mut rng, &bounds, true),
+                            vals::mixed(&mut rng, &bounds, true),
+                        )
                     }
                 })
                 .collect();
@@ -332,11 +465,35 @@ macro_rules! add_jobs {
 
 pub fn jobs(tier: Tier, rng: &mut Rng) -> (String, Vec<Job>) {
     let mut jobs: Vec<Job> = Vec::new();
-    add_jobs!(jobs, rng, tier, StdMath, "StdMath", false, [f32, f64, i8, i16, i32, i64, u8, u16, u32, u64]);
-    add_jobs!(jobs, rng, tier, AutoMath, "AutoMath", cfg!(feature = "nightly"), [f32, f64, i8, i16, i32, i64, u8, u16, u32, u64]);
+    add_jobs!(
+        jobs,
+        rng,
+        tier,
+        StdMath,
+        "StdMath",
+        false,
+        [f32, f64, i8, i16, i32, i64, u8, u16, u32, u64]
+    );
+    add_jobs!(
+        jobs,
+        rng,
+        tier,
+        AutoMath,
+        "AutoMath",
+        cfg!(feature = "nightly"),
+        [f32, f64, i8, i16, i32, i64, u8, u16, u32, u64]
+    );
     #[cfg(feature = "nightly")]
     {
-        add_jobs!(jobs, rng, tier, cfavml::math::FastMath, "FastMath", true, [f32, f64, i8, i16, i32, i64, u8, u16, u32, u64]);
+        add_jobs!(
+            jobs,
+            rng,
+            tier,
+            cfavml::math::FastMath,
+            "FastMath",
+            true,
+            [f32, f64, i8, i16, i32, i64, u8, u16, u32, u64]
+        );
     }
     (RULE.to_string(), jobs)
 }
